@@ -40,6 +40,13 @@ Proof. reflexivity. Qed.
 Lemma xrun_rmw t o n rhs st : xrun k (XRmw t o n rhs) st =
   ('(vb, s1) <~ xrun k rhs st ;; va <~ load_slot k t s1 n ;; r <~ eval_binop k t o va vb ;; ODone (r, upd s1 n r)).
 Proof. reflexivity. Qed.
+Lemma xrun_rmwc tx top o n rhs st : xrun k (XRmwC tx top o n rhs) st =
+  ('(vb, s1) <~ xrun k rhs st ;; va <~ load_slot k tx s1 n ;;
+   va' <~ (if ty_eqb top tx then ODone va else as_int (eval_cast k top (Vint va))) ;;
+   r <~ eval_binop k top o va' vb ;;
+   r' <~ (if ty_eqb top tx then ODone r else as_int (eval_cast k tx (Vint r))) ;;
+   ODone (r', upd s1 n r')).
+Proof. reflexivity. Qed.
 Lemma crun_cmp cc a b st : crun k (CCmp cc a b) st =
   ('(va, s1) <~ xrun k a st ;; '(vb, s2) <~ xrun k b s1 ;; ODone (eval_cond cc va vb, s2)).
 Proof. reflexivity. Qed.
@@ -62,7 +69,8 @@ Hypothesis Hwf : wf_ctx c.
 Hypothesis Hf : faithful k g.
 Local Notation dm := (dm_of (cg_ctx g)).
 Variable te : tenv.
-Local Notation svC := (mk_semv (promote dm) (uac dm)).
+Variable fl : bool.                     (* how `x op= e` is elaborated (v_cassign) *)
+Local Notation svC := (mk_semv (promote dm) (uac dm) fl).
 
 Local Notation cid := (cid g Hwf).
 Local Notation cir := (cir g Hwf).
@@ -295,9 +303,51 @@ Proof.
   end.
 Qed.
 
+Lemma elab_assignop_new sv op n a : v_cassign sv = true ->
+  elab sv te (XAssignOp op n a) =
+  TBin (TVar n (tvar te n)) (OAssignOp op)
+       (match op with
+        | BShl | BShr => coerce (promote_m sv (elab sv te a)) (ptype sv (tvar te n))
+        | _ => coerce (promote_m sv (elab sv te a))
+                      (v_common sv (ptype sv (tvar te n)) (ttyp (promote_m sv (elab sv te a))))
+        end) (tvar te n).
+Proof. intros H. cbn [elab]. rewrite H. reflexivity. Qed.
+Lemma elab_assignop_old sv op n a : v_cassign sv = false ->
+  elab sv te (XAssignOp op n a) =
+  TBin (TVar n (tvar te n)) (OAssignOp op) (coerce (elab sv te a) (tvar te n)) (tvar te n).
+Proof. intros H. cbn [elab]. rewrite H. reflexivity. Qed.
+
+(* x op= e computed in type T: load x, [cast to T], operate, [cast back], store *)
+Lemma irty_eq_convert a b v : irty g a = irty g b -> convert dm a v = convert dm b v.
+Proof.
+  intros E. pose proof (Hf a) as Fa. pose proof (Hf b) as Fb. rewrite E in Fa. rewrite Fa in Fb.
+  injection Fb as Eb Es. unfold convert. now rewrite Eb, Es.
+Qed.
+
+Lemma rmwc_finish op tn T rhs o n st s1 va vb' r :
+  xrun k (lower g rhs) st = ODone (vb', s1) -> ttyp rhs = T -> nth_error s1 n = Some va ->
+  in_range dm tn va = true -> in_range dm T r = true ->
+  eval_binop k (irty g T) o (convert dm T va) vb' = ODone r ->
+  ir_binop op = Some o ->
+  Runs (TBin (TVar n tn) (OAssignOp op) rhs tn) st (convert dm tn r) (upd s1 n (convert dm tn r)).
+Proof.
+  intros Hr HT En Rva Rr EB Eo. unfold lower in Hr.
+  assert (E : xrun k (lower g (TBin (TVar n tn) (OAssignOp op) rhs tn)) st
+              = ODone (convert dm tn r, upd s1 n (convert dm tn r))).
+  { unfold lower. cbn [low fst]. rewrite Eo. cbn [fst]. rewrite HT, xrun_rmwc, Hr. ostep.
+    rewrite (load_exact k g Hwf Hf _ _ _ _ En). ostep. rewrite (cid _ _ Rva).
+    destruct (ty_eqb (irty g T) (irty g tn)) eqn:Q.
+    - apply ty_eqb_spec in Q. ostep.
+      rewrite (irty_eq_convert T tn va Q), (cid _ _ Rva) in EB. rewrite EB. ostep.
+      rewrite <- (irty_eq_convert T tn r Q), (cid _ _ Rr). reflexivity.
+    - rewrite (cast_exact k g Hwf Hf). ostep. rewrite EB. ostep. rewrite (cast_exact k g Hwf Hf). ostep. reflexivity. }
+  split; [exact E|]. unfold lcond. cbn [low snd]. rewrite Eo. cbn [snd]. apply nz_cond.
+  unfold lower in E. cbn [low fst] in E. rewrite Eo in E. exact E.
+Qed.
+
 (* ---- value preservation with the C11 typing helpers ---- *)
 Theorem value_C e : forall st v st',
-  store_ok dm te st -> cassign_all dm te e = true ->
+  store_ok dm te st -> cassign_all dm te fl e = true ->
   xeval dm te st e = Some (v, st') -> Runs (elab svC te e) st v st'.
 Proof.
   induction e as [t z|n|t a IHa|op a IHa|op a IHa b IHb|x IHx a IHa b IHb|a IHa b IHb|n a IHa|op n a IHa];
@@ -486,36 +536,64 @@ Proof.
     destruct (bin_val dm (promote dm (tvar te n)) (promote dm (xtype_of dm te a)) op va vb) as [r|] eqn:B; [|discriminate].
     injection EV as <- <-.
     pose proof (nth_ok s1 S1 n va En) as Rva.
-    unfold cassign_ok in CO. apply andb_prop in CO as [CP CU]. apply ity_eqb_true in CP.
     set (tn := tvar te n) in *. set (tb := xtype_of dm te a) in *.
-    pose proof (promote_range g Hwf tb vb Rb) as Rpb.
+    pose proof (promote_range g Hwf tb vb Rb) as Rpb. pose proof (promote_range g Hwf tn va Rva) as Rpa.
     assert (Rb' : in_range dm (ttyp (elab svC te a)) vb = true) by (rewrite (ttyp_elabC a); exact Rb).
-    pose proof (runs_coerce _ tn _ _ _ Ia Rb') as [Pc _].
-    unfold bin_val in B. rewrite CP in B. rewrite (cid _ _ Rva), (cid _ _ Rpb) in B.
-    assert (X : exists o, ir_binop op = Some o /\
-                  eval_binop k (irty g tn) o va (convert dm tn vb) = ODone r /\ convert dm tn r = r).
-    { destruct (is_shift op) eqn:Hs.
-      - assert (N : convert dm tn vb = vb).
+    unfold bin_val in B. rewrite (cid _ _ Rpa), (cid _ _ Rpb) in B.
+    destruct (Bool.bool_dec fl true) as [Hfl|Hfl].
+    + (* fixes/C01-compound-assign.diff: computed in the type of x op e *)
+      pose proof (runs_promote _ _ _ _ Ia Rb') as Pb. pose proof (ttyp_promote (elab svC te a)) as TPb.
+      rewrite (ttyp_elabC a) in Pb, TPb. fold tb in Pb, TPb. rewrite (cid _ _ Rpb) in Pb.
+      set (ptn := promote dm tn) in *. set (ptb := promote dm tb) in *.
+      set (b2 := promote_m svC (elab svC te a)) in *.
+      assert (Rvb : in_range dm (ttyp b2) vb = true) by (rewrite TPb; exact Rpb).
+      destruct (is_shift op) eqn:Hs.
+      * assert (G : elab svC te (XAssignOp op n a) = TBin (TVar n tn) (OAssignOp op) (coerce b2 ptn) tn).
+        { rewrite (elab_assignop_new svC op n a Hfl). fold tn b2. unfold ptype. cbn [v_promote]. rewrite (ppC tn).
+          destruct op; try discriminate; reflexivity. }
+        rewrite G.
+        pose proof (runs_coerce b2 ptn _ _ _ Pb Rvb) as [Pc _].
+        assert (N : convert dm ptn vb = vb).
         { apply cid, (small_in_range c Hwf). unfold shift in B.
-          destruct ((vb <? 0) || (bits dm tn <=? vb)) eqn:Hn; [discriminate|]. lia. }
-        rewrite N. destruct op; try discriminate;
-          (eexists; split; [reflexivity|split;
-             [refine (binop_shift_exact k g Hwf Hf tn _ _ va vb r _ _ B); reflexivity
-             |apply cid, (shift_in_range c Hwf _ _ _ _ _ B)]]).
-      - apply ity_eqb_true in CU. rewrite CP in CU. rewrite CU in B. rewrite (cid _ _ Rva) in B.
+          destruct ((vb <? 0) || (bits dm ptn <=? vb)) eqn:Hn; [discriminate|]. lia. }
+        rewrite N in Pc.
+        destruct op; try discriminate;
+          (eapply (rmwc_finish _ tn ptn _ _ n st s1 va vb r Pc (ttyp_coerce _ _) En Rva
+                               (shift_in_range c Hwf _ _ _ _ _ B)); [|reflexivity];
+           rewrite (cid _ _ Rpa); refine (binop_shift_exact k g Hwf Hf ptn _ _ va vb r _ _ B); reflexivity).
+      * set (T := uac dm ptn ptb) in *.
+        assert (G : elab svC te (XAssignOp op n a) = TBin (TVar n tn) (OAssignOp op) (coerce b2 T) tn).
+        { rewrite (elab_assignop_new svC op n a Hfl). fold tn b2. unfold ptype. cbn [v_promote v_common].
+          rewrite (ppC tn), TPb. destruct op; try discriminate; reflexivity. }
+        rewrite G.
+        pose proof (runs_coerce b2 T _ _ _ Pb Rvb) as [Pc _].
         pose proof (arith_in_range c Hwf _ _ _ _ _ B) as Rr.
         destruct op; try discriminate; cbn [is_int_result] in Rr;
-          (eexists; split; [reflexivity|split;
-             [refine (binop_arith_exact k g Hwf Hf tn _ _ va (convert dm tn vb) r _ _ Rva (cir _ _) B); reflexivity
-             |apply cid, Rr]]). }
-    destruct X as (o & Eo & EB & Er).
-    cbn [elab]. fold tn.
-    assert (E : xrun k (lower g (TBin (TVar n tn) (OAssignOp op) (coerce (elab svC te a) tn) tn)) st
-                = ODone (convert dm tn r, upd s1 n (convert dm tn r))).
-    { unfold lower. cbn [low fst]. rewrite Eo. cbn [fst]. unfold lower in Pc. rewrite xrun_rmw, Pc. ostep.
-      rewrite (load_exact k g Hwf Hf _ _ _ _ En). ostep. rewrite (cid _ _ Rva), EB. ostep. now rewrite Er. }
-    split; [exact E|]. unfold lcond. cbn [low snd]. rewrite Eo. cbn [snd]. apply nz_cond.
-    unfold lower in E. cbn [low fst] in E. rewrite Eo in E. exact E.
+          (eapply (rmwc_finish _ tn T _ _ n st s1 va (convert dm T vb) r Pc (ttyp_coerce _ _) En Rva Rr); [|reflexivity];
+           refine (binop_arith_exact k g Hwf Hf T _ _ (convert dm T va) (convert dm T vb) r _ _ (cir _ _) (cir _ _) B);
+           reflexivity).
+    + (* the code before that fix: computed in the type of x; the C meaning only under cassign_ok *)
+      apply Bool.not_true_is_false in Hfl. rewrite Hfl in CO. cbn [orb] in CO. unfold cassign_ok in CO. apply andb_prop in CO as [CP CU]. apply ity_eqb_true in CP.
+      rewrite CP in B.
+      pose proof (runs_coerce _ tn _ _ _ Ia Rb') as [Pc _].
+      assert (G : elab svC te (XAssignOp op n a) = TBin (TVar n tn) (OAssignOp op) (coerce (elab svC te a) tn) tn)
+        by exact (elab_assignop_old svC op n a Hfl).
+      rewrite G.
+      destruct (is_shift op) eqn:Hs.
+      * assert (N : convert dm tn vb = vb).
+        { apply cid, (small_in_range c Hwf). unfold shift in B.
+          destruct ((vb <? 0) || (bits dm tn <=? vb)) eqn:Hn; [discriminate|]. lia. }
+        rewrite N in Pc.
+        destruct op; try discriminate;
+          (eapply (rmwc_finish _ tn tn _ _ n st s1 va vb r Pc (ttyp_coerce _ _) En Rva
+                               (shift_in_range c Hwf _ _ _ _ _ B)); [|reflexivity];
+           rewrite (cid _ _ Rva); refine (binop_shift_exact k g Hwf Hf tn _ _ va vb r _ _ B); reflexivity).
+      * apply ity_eqb_true in CU. rewrite CP in CU. rewrite CU in B.
+        pose proof (arith_in_range c Hwf _ _ _ _ _ B) as Rr.
+        destruct op; try discriminate; cbn [is_int_result] in Rr;
+          (eapply (rmwc_finish _ tn tn _ _ n st s1 va (convert dm tn vb) r Pc (ttyp_coerce _ _) En Rva Rr); [|reflexivity];
+           refine (binop_arith_exact k g Hwf Hf tn _ _ (convert dm tn va) (convert dm tn vb) r _ _ (cir _ _) (cir _ _) B);
+           reflexivity).
 Qed.
 
 (* ---- a variant of the typing helpers elaborates like the C11 helpers wherever it agrees ---- *)
@@ -527,9 +605,9 @@ Proof.
   apply ity_eqb_true in A. now rewrite A.
 Qed.
 
-Lemma elab_ext sv e : agrees sv dm te e = true -> elab sv te e = elab svC te e.
+Lemma elab_ext sv e : v_cassign sv = fl -> agrees sv dm te e = true -> elab sv te e = elab svC te e.
 Proof.
-  induction e as [t z|n|t a IHa|op a IHa|op a IHa b IHb|x IHx a IHa b IHb|a IHa b IHb|n a IHa|op n a IHa];
+  intros Hfl. induction e as [t z|n|t a IHa|op a IHa|op a IHa b IHb|x IHx a IHa b IHb|a IHa b IHb|n a IHa|op n a IHa];
     intros A; cbn [agrees] in A.
   - reflexivity.
   - reflexivity.
@@ -555,41 +633,70 @@ Proof.
     rewrite !ttyp_promote, Ta, Tb, Ac. reflexivity.
   - apply andb_prop in A as [Aa Ab]. cbn [elab]. now rewrite (IHa Aa), (IHb Ab).
   - cbn [elab]. now rewrite (IHa A).
-  - apply andb_prop in A as [A _]. cbn [elab]. now rewrite (IHa A).
+  - apply andb_prop in A as [A O]. specialize (IHa A).
+    destruct (Bool.bool_dec fl true) as [F|F].
+    + rewrite Hfl, F in O. apply andb_prop in O as [O Oc]. apply andb_prop in O as [Pn Pb].
+      rewrite (elab_assignop_new sv op n a (eq_trans Hfl F)), (elab_assignop_new svC op n a F).
+      rewrite IHa, (promote_ext sv _ _ (ttyp_elabC a) Pb).
+      assert (PT : ptype sv (tvar te n) = ptype svC (tvar te n)).
+      { unfold ptype. cbn [v_promote]. rewrite (ppC _). unfold agree_p, pp_v in Pn. now apply ity_eqb_true in Pn. }
+      rewrite PT. destruct (is_shift op) eqn:Hs.
+      * destruct op; try discriminate; reflexivity.
+      * unfold agree_c in Oc. apply ity_eqb_true in Oc.
+        unfold ptype. cbn [v_promote v_common]. rewrite (ppC _), ttyp_promote, (ttyp_elabC a), Oc.
+        destruct op; reflexivity.
+    + apply Bool.not_true_is_false in F.
+      rewrite (elab_assignop_old sv op n a (eq_trans Hfl F)), (elab_assignop_old svC op n a F), IHa. reflexivity.
 Qed.
 
-Lemma agrees_cassign sv e : agrees sv dm te e = true -> cassign_all dm te e = true.
+Lemma agrees_cassign sv e : v_cassign sv = fl -> agrees sv dm te e = true -> cassign_all dm te fl e = true.
 Proof.
-  induction e as [t z|n|t a IHa|op a IHa|op a IHa b IHb|x IHx a IHa b IHb|a IHa b IHb|n a IHa|op n a IHa];
+  intros Hfl. induction e as [t z|n|t a IHa|op a IHa|op a IHa b IHb|x IHx a IHa b IHb|a IHa b IHb|n a IHa|op n a IHa];
     intros A; cbn [agrees] in A; cbn [cassign_all]; auto.
   - destruct op; try (apply andb_prop in A as [A _]); auto.
   - apply andb_prop in A as [A _]. apply andb_prop in A as [Aa Ab]. now rewrite IHa, IHb.
   - apply andb_prop in A as [A _]. apply andb_prop in A as [A _]. apply andb_prop in A as [A _].
     apply andb_prop in A as [A Ab]. apply andb_prop in A as [Ax Aa]. now rewrite IHx, IHa, IHb.
   - apply andb_prop in A as [Aa Ab]. now rewrite IHa, IHb.
-  - apply andb_prop in A as [A O]. now rewrite IHa, O.
+  - apply andb_prop in A as [A O]. rewrite (IHa A). cbn [andb]. rewrite Hfl in O.
+    destruct (Bool.bool_dec fl true) as [F|F]; [now rewrite F|].
+    apply Bool.not_true_is_false in F. rewrite F in O. rewrite F. exact O.
 Qed.
 
 (* ---- the theorems for a variant ---- *)
-Theorem expr_typing sv e : agrees sv dm te e = true -> ttyp (elab sv te e) = xtype_of dm te e.
-Proof. intros A. rewrite (elab_ext sv e A). apply ttyp_elabC. Qed.
+Theorem expr_typing_fl sv e : v_cassign sv = fl -> agrees sv dm te e = true -> ttyp (elab sv te e) = xtype_of dm te e.
+Proof. intros Hfl A. rewrite (elab_ext sv e Hfl A). apply ttyp_elabC. Qed.
 
-Theorem expr_value sv e st v st' :
+Theorem expr_value_fl sv e st v st' : v_cassign sv = fl ->
   store_ok dm te st -> agrees sv dm te e = true -> ceval dm te st e = Some (v, st') ->
   xrun k (lower g (elab sv te e)) st = ODone (v, st').
 Proof.
-  intros SO A EV. unfold ceval in EV. destruct (seq_ok e); [|discriminate].
-  rewrite (elab_ext sv e A). exact (proj1 (value_C e st v st' SO (agrees_cassign sv e A) EV)).
+  intros Hfl SO A EV. unfold ceval in EV. destruct (seq_ok e); [|discriminate].
+  rewrite (elab_ext sv e Hfl A). exact (proj1 (value_C e st v st' SO (agrees_cassign sv e Hfl A) EV)).
 Qed.
 
+(* the condition tree of the same expression decides `e != 0` *)
+Theorem expr_cond_fl sv e st v st' : v_cassign sv = fl ->
+  store_ok dm te st -> agrees sv dm te e = true -> ceval dm te st e = Some (v, st') ->
+  crun k (lcond g (elab sv te e)) st = ODone (negb (v =? 0), st').
+Proof.
+  intros Hfl SO A EV. unfold ceval in EV. destruct (seq_ok e); [|discriminate].
+  rewrite (elab_ext sv e Hfl A). exact (proj2 (value_C e st v st' SO (agrees_cassign sv e Hfl A) EV)).
+Qed.
+
+Lemma ceval_ok e st v st' :
+  ceval dm te st e = Some (v, st') -> store_ok dm te st ->
+  in_range dm (xtype_of dm te e) v = true /\ store_ok dm te st'.
+Proof. unfold ceval. destruct (seq_ok e); [apply xeval_ok|discriminate]. Qed.
+
 (* `rt f(te...) { return e; }` returns the C value converted to rt *)
-Theorem fn_value sv rt e st v st' :
+Theorem fn_value_fl sv rt e st v st' : v_cassign sv = fl ->
   store_ok dm te st -> agrees sv dm te e = true -> ceval dm te st e = Some (v, st') ->
   xrun k (c_tree sv g te rt e) st = ODone (convert dm rt v, st').
 Proof.
-  intros SO A EV. unfold ceval in EV. destruct (seq_ok e); [|discriminate].
-  unfold c_tree, elab_ret. rewrite (elab_ext sv e A).
-  pose proof (value_C e st v st' SO (agrees_cassign sv e A) EV) as R.
+  intros Hfl SO A EV. unfold ceval in EV. destruct (seq_ok e); [|discriminate].
+  unfold c_tree, elab_ret. rewrite (elab_ext sv e Hfl A).
+  pose proof (value_C e st v st' SO (agrees_cassign sv e Hfl A) EV) as R.
   destruct (xeval_ok e _ _ _ EV SO) as [Rv _]. rewrite <- (ttyp_elabC e) in Rv.
   exact (proj1 (runs_coerce _ rt _ _ _ R Rv)).
 Qed.
@@ -617,6 +724,26 @@ Proof.
 Qed.
 End Expr.
 
+(* the same, for the flag of the variant itself *)
+Theorem expr_typing g te sv e :
+  agrees sv (dm_of (cg_ctx g)) te e = true -> ttyp (elab sv te e) = xtype_of (dm_of (cg_ctx g)) te e.
+Proof. exact (expr_typing_fl g te (v_cassign sv) sv e eq_refl). Qed.
+Theorem expr_value k g (Hwf : wf_ctx (cg_ctx g)) (Hf : faithful k g) te sv e st v st' :
+  store_ok (dm_of (cg_ctx g)) te st -> agrees sv (dm_of (cg_ctx g)) te e = true ->
+  ceval (dm_of (cg_ctx g)) te st e = Some (v, st') ->
+  xrun k (lower g (elab sv te e)) st = ODone (v, st').
+Proof. exact (expr_value_fl k g Hwf Hf te (v_cassign sv) sv e st v st' eq_refl). Qed.
+Theorem expr_cond k g (Hwf : wf_ctx (cg_ctx g)) (Hf : faithful k g) te sv e st v st' :
+  store_ok (dm_of (cg_ctx g)) te st -> agrees sv (dm_of (cg_ctx g)) te e = true ->
+  ceval (dm_of (cg_ctx g)) te st e = Some (v, st') ->
+  crun k (lcond g (elab sv te e)) st = ODone (negb (v =? 0), st').
+Proof. exact (expr_cond_fl k g Hwf Hf te (v_cassign sv) sv e st v st' eq_refl). Qed.
+Theorem fn_value k g (Hwf : wf_ctx (cg_ctx g)) (Hf : faithful k g) te sv rt e st v st' :
+  store_ok (dm_of (cg_ctx g)) te st -> agrees sv (dm_of (cg_ctx g)) te e = true ->
+  ceval (dm_of (cg_ctx g)) te st e = Some (v, st') ->
+  xrun k (c_tree sv g te rt e) st = ODone (convert (dm_of (cg_ctx g)) rt v, st').
+Proof. exact (fn_value_fl k g Hwf Hf te (v_cassign sv) sv rt e st v st' eq_refl). Qed.
+
 (* ---- the C11 variant (fixes/C01-common-type.diff) agrees on every operand type ---- *)
 Section C11.
 Variable c : cctx.
@@ -642,7 +769,7 @@ Proof.
 Qed.
 
 Local Transparent Z.mul.
-Lemma agrees_c11 te e : cassign_all dm te e = true -> agrees (sem_c11 c) dm te e = true.
+Lemma agrees_c11 te e : cassign_all dm te false e = true -> agrees (sem_c11 c) dm te e = true.
 Proof.
   assert (C : forall a b, agree_c (sem_c11 c) dm a b = true).
   { intros a b. unfold agree_c. cbn [v_common sem_c11]. rewrite c11_common_ok. destruct (uac dm _ _); reflexivity. }
@@ -654,6 +781,21 @@ Proof.
   - apply andb_prop in A as [A Ab]. apply andb_prop in A as [Ax Aa].
     rewrite (IHx Ax), (IHa Aa), (IHb Ab), !c11_promote_ok, C. reflexivity.
   - apply andb_prop in A as [Aa Ab]. now rewrite (IHa Aa), (IHb Ab).
-  - apply andb_prop in A as [A O]. now rewrite (IHa A), O.
+  - apply andb_prop in A as [A O]. cbn [orb] in O. cbn [v_cassign sem_c11]. now rewrite (IHa A), O.
+Qed.
+
+(* with fixes/C01-compound-assign.diff nothing is left to require *)
+Lemma agrees_c11a te e : agrees (sem_c11a c) dm te e = true.
+Proof.
+  assert (P : forall t, agree_p (sem_c11a c) dm t = true) by exact c11_promote_ok.
+  assert (C : forall a b, agree_c (sem_c11a c) dm a b = true).
+  { intros a b. unfold agree_c. cbn [v_common sem_c11a]. rewrite c11_common_ok. destruct (uac dm _ _); reflexivity. }
+  induction e as [t z|n|t a IHa|op a IHa|op a IHa b IHb|x IHx a IHa b IHb|a IHa b IHb|n a IHa|op n a IHa];
+    cbn [agrees]; auto.
+  - destruct op; rewrite ?P, ?Bool.andb_true_r; auto.
+  - rewrite IHa, IHb. destruct op; rewrite ?P, ?C; reflexivity.
+  - rewrite IHx, IHa, IHb, !P, C. reflexivity.
+  - now rewrite IHa, IHb.
+  - rewrite IHa. cbn [v_cassign sem_c11a]. rewrite !P, C. now destruct (is_shift op).
 Qed.
 End C11.
